@@ -150,7 +150,7 @@ def fresh_map(cases, jobs):
         return pool.map(_wrap, range(len(_CASES)), chunksize=1)
 
 
-def semantic_equal(src, files_a, files_b):
+def semantic_equal(src, files_a, files_b, dm=None, backend="atlas"):
     "engine A: are two packages for the same query equivalent for all events? -> (bool|None, text)"
     import z3
     from ..tv.equiv import Encoded, Program, check_sat, seq_eq, row_eq, schema_of_cpp
@@ -161,14 +161,14 @@ def semantic_equal(src, files_a, files_b):
     class Info:
         pass
     try:
-        dm = DataModel("atlas")
+        dm = dm or DataModel(backend)
         ev = Event(dm, 2)
-        prog = Program(src, "atlas", dm)
+        prog = Program(src, backend, dm)
         encs = []
         for files in (files_a, files_b):
             pk = Package.__new__(Package)
-            pk.backend, pk.files, pk.modes = "atlas", files, {k: 0o755 for k in files}
-            m = re.search(r'tree\("([^"]*)"\)->Fill', files.get("query.cxx", ""))
+            pk.backend, pk.files, pk.modes = backend, files, {k: 0o755 for k in files}
+            m = re.search(r'tree\("([^"]*)"\)->Fill', files.get("query.cxx", "")) or re.search(r'make<TTree>\("([^"]*)"', files.get("Analyzer.cc", ""))
             pk.treename, pk.filename, pk.main_script, pk.all_filenames = (m.group(1) if m else None), "ANALYSIS.root", "runner.sh", list(files)
             encs.append(Encoded(prog, pk, 2, event=ev, skip_ref=True, tag="AB"[len(encs)]))
         A, B = encs
